@@ -53,6 +53,10 @@ def run(ctx):
         ctx.guard(conflicts, ctx, cfg, fs)
         import c08, c18, c05
         ctx.guard(consumers.forkers, ctx, cfg, fs, 'F.fork')
+        import c19
+        # chained adjacent commands inside a repeated choice: the retry window of a command that took nothing is the empty window at
+        # its start, found by scanning the scope from its first item (shared with C19)
+        ctx.guard(c08.keep_only, ctx, lambda: c19.adjacent_scope(ctx, cfg, fs), lambda o: 'first-foreign-item' in o.key or 'window-starts' in o.key, 'O.order')
         import c12
         # "values follow command-line order" / "leftmost wins" rest on every named consumer claiming the LEFTMOST unconsumed match
         ctx.guard(c08.keep_only, ctx, lambda: consumers.consumers(ctx, cfg, fs, 'L.leftmost'), lambda o: True, 'L.leftmost')
